@@ -113,6 +113,8 @@ def run(chk):
     c09.rule_never_early(chk, prefix="C01")
     c09.rule_add_dispatch(chk)
     c09.rule_upward(chk)
+    from . import c19
+    c19.rule_writer(chk)    # the emitted stream through the threaded writer: nothing accepted is dropped, nothing delivered after the stop
     c04.rule_pairs(chk)
     c03.rule_start(chk)
     c03.rule_once(chk)
